@@ -76,6 +76,12 @@ Definition glob_session (size : Z) (calls : list (str * bool)) : outcome (list (
      if cfg.GlobCacheSize <= 0 { return nil, fmt.Errorf("glob.cache.size must be greater than zero") } *)
 Definition load_accepts_glob_cache_size (size : Z) : bool := (0 <? size)%Z.
 
+(* the check does not look at glob.matching.disabled, and must not: main.go:170
+   (newGrpcProxy) and main.go:194 (newHTTPProxy) call route.NewGlobCache(cfg.GlobCacheSize)
+   whether or not glob matching is disabled *)
+Definition load_accepts_glob_settings (size : Z) (matching_disabled : bool) : bool :=
+  load_accepts_glob_cache_size size.
+
 (* before e17deb4 there was no check (repaired in /repo; refutation theorems only) *)
 Definition load_accepts_glob_cache_size_unrepaired (size : Z) : bool := true.
 
@@ -83,6 +89,9 @@ Definition load_accepts_glob_cache_size_unrepaired (size : Z) : bool := true.
    route.NewGlobCache(cfg.GlobCacheSize) and the lookups.  Err 1 = Load returned an error. *)
 Definition load_then_use (size : Z) (calls : list (str * bool)) : outcome (list (outcome bool)) :=
   if load_accepts_glob_cache_size size then glob_session size calls else Err 1.
+Definition load_then_use_settings (size : Z) (matching_disabled : bool) (calls : list (str * bool))
+  : outcome (list (outcome bool)) :=
+  if load_accepts_glob_settings size matching_disabled then glob_session size calls else Err 1.
 Definition load_then_use_unrepaired (size : Z) (calls : list (str * bool)) : outcome (list (outcome bool)) :=
   if load_accepts_glob_cache_size_unrepaired size then glob_session size calls else Err 1.
 
